@@ -175,6 +175,12 @@ fn main() {
         let _ = out.write_all(b"\xff\xfe tail\n");
         let _ = err.write_all(&text.as_bytes()[..text.len() - line.len()]);
         let _ = writeln!(err, "stand-in {prog}: scripted failure of {kind}");
+        // what the daemon says when a detached container cannot be started (the container exists by then)
+        if kind == "run-detached" {
+            let _ = writeln!(err, "{}", ["docker: Error response from daemon: driver failed programming external connectivity on endpoint x: Bind for 0.0.0.0:32768 failed: port is already allocated.",
+                "docker: Error response from daemon: failed to set up container networking: address already in use.",
+                "docker: Error response from daemon: failed to create task for container: exec: \"nope\": executable file not found in $PATH: unknown."][n % 3]);
+        }
         std::process::exit(1);
     }
     match kind {
